@@ -389,6 +389,35 @@ func ctorParamFields(ctor *ssa.Function, depth int) (map[int]*types.Var, map[*ty
 
 type defaultClass string
 
+// globalIsZero: the package-level variable is only ever assigned a zero-value constant (in its package's init),
+// or has no initialiser at all.
+func globalIsZero(g *ssa.Global) bool {
+	if g.Pkg == nil {
+		return false
+	}
+	init := g.Pkg.Func("init")
+	if init == nil || init.Blocks == nil {
+		return false // no source for the defining package
+	}
+	zero := true
+	for _, m := range g.Pkg.Members {
+		f, ok := m.(*ssa.Function)
+		if !ok {
+			continue
+		}
+		for _, fn := range engine.WithClosures(f) {
+			engine.Instrs(fn, func(in ssa.Instruction) {
+				if st, ok := in.(*ssa.Store); ok && st.Addr == ssa.Value(g) {
+					if c, isC := st.Val.(*ssa.Const); !isC || c.Value != nil {
+						zero = false
+					}
+				}
+			})
+		}
+	}
+	return zero
+}
+
 func classifyDefault(v ssa.Value) defaultClass {
 	v = engine.Strip(v)
 	if engine.IsNilConst(v) {
@@ -399,6 +428,9 @@ func classifyDefault(v ssa.Value) defaultClass {
 	}
 	if u, ok := v.(*ssa.UnOp); ok && u.Op == token.MUL {
 		if g, ok := u.X.(*ssa.Global); ok {
+			if globalIsZero(g) {
+				return "zero"
+			}
 			return defaultClass("global:" + g.Name())
 		}
 	}
@@ -457,9 +489,14 @@ func c11Slots(c *engine.Ctx, r2, r3 string, enc, dec []*ssa.Function) {
 					case b.Op == token.GTR && cd.Pol:
 						if call, ok := b.X.(*ssa.Call); ok {
 							if bi, ok := call.Call.Value.(*ssa.Builtin); ok && bi.Name() == "len" {
-								info.omit = "empty"
+								if k, ok := engine.ConstInt(b.Y); ok && k == 0 {
+									info.omit = "empty"
+								}
 							}
 						}
+					}
+					if info.omit == "" {
+						info.omit = defaultClass("unrecognised condition " + b.Op.String())
 					}
 				}
 			}
